@@ -105,6 +105,46 @@ def run(tier, replay=None):
                     rows.append(row(pv, fid, frame))
     binary = common.cargo_build('codec_driver')
     ev = common.run_driver(binary, rows, 'c04')
+    # the same login enum faults through the protocol-parameterised entry points (collective layer)
+    if not replay or any(cs.get('kind') == 'enum' and cs['family'] == 'login' for cs in cases.values()):
+        abin = common.cargo_build('async_driver')
+        pe = common.run_driver(abin, [['pairs', 'P.pairs']], 'c04pp', workers=1).get('pairs') or {}
+        pairs = {(n, v) for n, d, v in pe.get('pairs') or []}
+        if not pairs:
+            chk.inconclusive.append('async_driver reports no collective table')
+        prow = []
+        for fid, cs in cases.items():
+            if cs['kind'] == 'enum' and cs['family'] == 'login' and (cs['object'], cs['version']) in pairs:
+                prow.append([fid, 'P.rt', cs['object'], cs['version'], cs['hex'], 'w', 'w', 0])
+        pev = common.run_driver(abin, prow, 'c04p', timeout=60) if prow else {}
+        for r in prow:
+            fid = r[0]
+            cs = cases[fid]
+            e = pev.get(fid)
+            if e is None or e.get('result') != 'done':
+                chk.inconclusive.append(f'{fid}: protocol API gave no observation ({e and e.get("result")})')
+                continue
+            for api in ('proto', 'enum', 'tokio', 'astd', 'tokio_enum', 'astd_enum'):
+                o = e.get(api) or {}
+                outs = o.get('outs') if api.startswith(('tokio', 'astd')) else [o]
+                for o1 in outs or []:
+                    bad = None
+                    if o1.get('result') == 'ok':
+                        bad = 'accepted'
+                    elif o1.get('result') != 'err':
+                        bad = str(o1.get('result'))
+                    elif o1.get('err_kind') not in ('Enum', 'ParseEnum'):
+                        bad = 'wrong-error-kind'
+                    elif o1.get('err_value') not in (cs['injected'], signed(cs['injected'], cs['width'])):
+                        bad = 'wrong-error-value'
+                    chk.count(f"protocol-enum:{bad or 'rejected'}")
+                    site = (cs['family'], cs['version'], cs['dir'], cs['object'], 'protocol-enum:' + api, cs['field'])
+                    if bad is None:
+                        chk.ok(site)
+                    else:
+                        obs = {'check': 'protocol-enum', 'api': api, 'family': cs['family'], 'version': cs['version'], 'dir': cs['dir'], 'object': cs['object'],
+                               'field': cs['field'], 'outcome': bad, 'err_kind': o1.get('err_kind'), 'panic_at': o1.get('panic_at'), 'alias_class': alias_class(cs)}
+                        chk.violation(obs, {'case': cs, 'event': e, 'row': r})
     missing = 0
     for fid, cs in cases.items():
         e = ev.get(fid)
